@@ -1025,3 +1025,38 @@ Proof.
   { intros t. destruct (a_targ a) as [[tg lt]|]; cbn [render_targpart targpart_len]; [|lia]. rewrite !blen_app. lia. }
   rewrite Ht, Hk, Hm. cbn [cplen N.ltb N.compare Pos.compare Pos.compare_cont]. lia.
 Qed.
+
+(* ---- a bracket whose first argument is an identifier that no key-value list and no message can
+        begin: name!( ident layout c ...  with c none of  = : , ;  and no identifier character ---- *)
+Lemma str_miss' k c t p : k <> c -> run Utab SK (EStr [k]) NonAtomic false (mkIn (c :: t) p) = Fail.
+Proof. intros H. rewrite run_str. cbn [Peg.rest strip_prefix]. destruct (N.eqb_spec k c); [congruence|reflexivity]. Qed.
+
+Lemma macro_args_tail_fail_ident i l c t p :
+  ident_ok i = true -> lay_ok l (c :: t) -> code_ahead (c :: t) ->
+  Utab XidContinue c = false -> name_start_ok c = false -> c <> 61 -> c <> 58 -> c <> 44 -> c <> 59 ->
+  strip_prefix target_word (render_ident i ++ render_lay l ++ c :: t)%list = None ->
+  run Utab SK (ESeq (EOpt r_target_arg) (ESeq (EOpt r_kvp_args) r_string_literal)) NonAtomic false
+      (mkIn (render_ident i ++ render_lay l ++ c :: t)%list p) = Fail.
+Proof.
+  intros Hi Hl Hc Hcont Hns H61 H58 H44 H59 Htw.
+  assert (Hca : code_ahead (render_ident i ++ render_lay l ++ c :: t)%list) by (apply ident_head; exact Hi).
+  rewrite run_seq, run_opt, (target_arg_miss _ _ Htw). cbn [do_skip]. rewrite (skip_none _ _ Hca).
+  rewrite run_seq, run_opt.
+  assert (Hkv : run Utab SK r_kvp_args NonAtomic false (mkIn (render_ident i ++ render_lay l ++ c :: t)%list p) = Fail).
+  { unfold r_kvp_args. rewrite run_rule. cbn [inner_atomicity]. fold kv_body. rewrite run_seq, run_seq.
+    unfold kv_body at 1. rewrite run_seq.
+    assert (Hst : cstops (c :: t)) by exact Hcont.
+    rewrite (kvp_key_spec i l (c :: t) p Hi Hl Hc Hst). cbn [do_skip].
+    unfold id_rest, id_end. rewrite (skip_after_rep (ics i) l (c :: t) _ Hl Hc).
+    rewrite run_seq, run_opt, (modifiers_miss c t _ H58). cbn [do_skip]. rewrite (skip_none _ _ Hc).
+    rewrite run_seq, run_opt, run_seq, (str_miss' 61 c t _) by (intros E; apply H61; symmetry; exact E).
+    cbn [do_skip]. rewrite (skip_none _ _ Hc). rewrite run_opt, (str_miss' 44 c t _) by (intros E; apply H44; symmetry; exact E).
+    cbn [do_skip app]. rewrite (skip_none _ _ Hc).
+    (* no further key-value starts at c, and c is not the terminating ";" *)
+    rewrite run_rep. unfold kv_body. rewrite run_seq.
+    rewrite (kvp_key_miss c t _ Hns). cbn [do_skip]. rewrite (skip_none _ _ Hc).
+    rewrite (str_miss' 59 c t _) by (intros E; apply H59; symmetry; exact E). reflexivity. }
+  rewrite Hkv. cbn [do_skip]. rewrite (skip_none _ _ Hca).
+  unfold render_ident. cbn [app]. rewrite string_literal_miss; [reflexivity|].
+  intros E. unfold ident_ok in Hi. apply andb_true_iff in Hi. destruct Hi as [H0 _]. rewrite E in H0. vm_compute in H0. discriminate.
+Qed.
